@@ -116,7 +116,7 @@ def handle (st : DriverState) (req : Sx) : DriverState × J :=
       | none => bad "rename")
   | .list [.atom "renameext", .atom f, .str s] =>
     (st, match f with
-      | "camel" => jOutcome .str (Rename.toCamel s)
+      | "camel" => .obj [("ok", .str (Rename.toCamel s))]
       | "pascal" => .obj [("ok", .str (Rename.toPascal s))]
       | "snake" => .obj [("ok", .str (Rename.toSnake st.U s))]
       | "screaming_snake" => .obj [("ok", .str (Rename.toScreamingSnake st.U s))]
